@@ -2,7 +2,6 @@ package rset
 
 import (
 	"database/sql"
-	"slices"
 	"time"
 
 	"github.com/nalgeon/redka/internal/core"
@@ -71,24 +70,6 @@ const (
 	)
 	and elem not in (select elem from others)`
 
-	sqlDiffStore = `
-	with others as (
-		select elem
-		from rset
-		where kid in (
-			select id from rkey
-			where key in (:keys) and type = 3 and (etime is null or etime > ?)
-		)
-	)
-	insert into rset (kid, elem)
-	select ?, elem
-	from rset
-	where kid = (
-		select id from rkey
-		where key = ? and type = 3 and (etime is null or etime > ?)
-	)
-	and elem not in (select elem from others)`
-
 	sqlExists = `
 	select count(*)
 	from rset join rkey on kid = rkey.id and type = 3
@@ -96,14 +77,6 @@ const (
 
 	sqlInter = `
 	select elem
-	from rset join rkey on kid = rkey.id and type = 3
-	where key in (:keys) and (etime is null or etime > ?)
-	group by elem
-	having count(distinct kid) = ?`
-
-	sqlInterStore = `
-	insert into rset (kid, elem)
-	select ?, elem
 	from rset join rkey on kid = rkey.id and type = 3
 	where key in (:keys) and (etime is null or etime > ?)
 	group by elem
@@ -148,13 +121,6 @@ const (
 
 	sqlUnion = `
 	select elem
-	from rset join rkey on kid = rkey.id and type = 3
-	where key in (:keys) and (etime is null or etime > ?)
-	group by elem`
-
-	sqlUnionStore = `
-	insert into rset (kid, elem)
-	select ?, elem
 	from rset join rkey on kid = rkey.id and type = 3
 	where key in (:keys) and (etime is null or etime > ?)
 	group by elem`
@@ -272,24 +238,13 @@ func (tx *Tx) DiffStore(dest string, keys ...string) (int, error) {
 		return 0, nil
 	}
 
-	// Delete the destination key if it exists.
-	now := time.Now().UnixMilli()
-	err := tx.deleteKey(dest, now)
+	// Diff the source sets. The destination may be one of them,
+	// so the result is computed before the destination is emptied.
+	elems, err := tx.Diff(keys...)
 	if err != nil {
 		return 0, err
 	}
-
-	// Create the destination key.
-	destID, err := tx.createKey(dest, now)
-	if err != nil {
-		return 0, err
-	}
-
-	// Diff the source sets and store the result.
-	others := keys[1:]
-	query, keyArgs := sqlx.ExpandIn(sqlDiffStore, ":keys", others)
-	args := append(keyArgs, now, destID, keys[0], now)
-	return tx.store(query, args)
+	return tx.replace(dest, elems)
 }
 
 // Exists reports whether the element belongs to a set.
@@ -334,23 +289,13 @@ func (tx *Tx) InterStore(dest string, keys ...string) (int, error) {
 		return 0, nil
 	}
 
-	// Delete the destination key if it exists.
-	now := time.Now().UnixMilli()
-	err := tx.deleteKey(dest, now)
+	// Intersect the source sets. The destination may be one of them,
+	// so the result is computed before the destination is emptied.
+	elems, err := tx.Inter(keys...)
 	if err != nil {
 		return 0, err
 	}
-
-	// Create the destination key.
-	destID, err := tx.createKey(dest, now)
-	if err != nil {
-		return 0, err
-	}
-
-	// Intersect the source sets and store the result.
-	query, keyArgs := sqlx.ExpandIn(sqlInterStore, ":keys", keys)
-	args := slices.Concat([]any{destID}, keyArgs, []any{now, sqlx.CountDistinct(keys)})
-	return tx.store(query, args)
+	return tx.replace(dest, elems)
 }
 
 // Items returns all elements in a set.
@@ -517,23 +462,13 @@ func (tx *Tx) UnionStore(dest string, keys ...string) (int, error) {
 		return 0, nil
 	}
 
-	// Delete the destination key if it exists.
-	now := time.Now().UnixMilli()
-	err := tx.deleteKey(dest, now)
+	// Union the source sets. The destination may be one of them,
+	// so the result is computed before the destination is emptied.
+	elems, err := tx.Union(keys...)
 	if err != nil {
 		return 0, err
 	}
-
-	// Create the destination key.
-	destID, err := tx.createKey(dest, now)
-	if err != nil {
-		return 0, err
-	}
-
-	// Union the source sets and store the result.
-	query, keyArgs := sqlx.ExpandIn(sqlUnionStore, ":keys", keys)
-	args := slices.Concat([]any{destID}, keyArgs, []any{now})
-	return tx.store(query, args)
+	return tx.replace(dest, elems)
 }
 
 // deleteKey deletes set elements and resets the key metadata.
@@ -556,15 +491,30 @@ func (tx *Tx) createKey(key string, now int64) (int, error) {
 	return keyID, nil
 }
 
-// store executes a set operation and stores the result.
+// replace makes the elements the new content of the destination key.
 // Returns the number of elements stored.
-func (tx *Tx) store(query string, args []any) (int, error) {
-	res, err := tx.tx.Exec(query, args...)
+func (tx *Tx) replace(dest string, elems []core.Value) (int, error) {
+	// Delete the destination key if it exists.
+	now := time.Now().UnixMilli()
+	err := tx.deleteKey(dest, now)
 	if err != nil {
 		return 0, err
 	}
-	n, _ := res.RowsAffected()
-	return int(n), nil
+
+	// Create the destination key.
+	destID, err := tx.createKey(dest, now)
+	if err != nil {
+		return 0, err
+	}
+
+	// Store the elements.
+	for _, elem := range elems {
+		_, err = tx.tx.Exec(sqlAdd2, destID, elem.Bytes())
+		if err != nil {
+			return 0, err
+		}
+	}
+	return len(elems), nil
 }
 
 // selectElems selects elements from a set.
